@@ -497,7 +497,7 @@ func (r *runnableStep) Lifecycle(input map[string]any) (result step.Lifecycle[st
 				Outputs: map[string]*schema.StepOutputSchema{
 					"error": {
 						SchemaValue: schema.NewScopeSchema(
-							schema.NewObjectSchema(
+							schema.NewStructMappedObjectSchema[DeployFailed](
 								"DeployError",
 								map[string]*schema.PropertySchema{
 									errorStr: schema.NewPropertySchema(
@@ -603,7 +603,7 @@ func (r *runnableStep) Lifecycle(input map[string]any) (result step.Lifecycle[st
 				Outputs: map[string]*schema.StepOutputSchema{
 					"error": {
 						SchemaValue: schema.NewScopeSchema(
-							schema.NewObjectSchema(
+							schema.NewStructMappedObjectSchema[Crashed](
 								"Crashed",
 								map[string]*schema.PropertySchema{
 									"output": schema.NewPropertySchema(
